@@ -52,6 +52,8 @@ class Task:
         t0 = time.time()
         rec = {"name": self.name, "cfg": self.cfg, "status": "inconclusive", "paths": 0, "queries": 0, "solver_s": 0.0,
                "notes": [], "stubs": [], "neg_control": None, "reachable": None, "tv": None, "engine": self.engine}
+        from symnp.harness import _ARG_MUTATIONS, task_mutation_verdict
+        del _ARG_MUTATIONS[:]
         try:
             self._run(rec, seed)
         except SymError as e:
@@ -61,6 +63,7 @@ class Task:
             rec["status"] = "error"
             rec["notes"].append(f"harness exception {type(e).__name__}: {e}")
             rec["trace"] = traceback.format_exc()[-2500:]
+        task_mutation_verdict(rec)
         rec["wall_s"] = round(time.time() - t0, 3)
         return rec
 
